@@ -344,12 +344,6 @@ impl<const H: usize> Reader<H> {
         let length_with_flag = u32::from_le_bytes(length_bytes);
         let is_compressed = length_with_flag & COMPRESSION_FLAG != 0;
         let payload_len = (length_with_flag & LENGTH_MASK) as usize;
-        let crc = u32::from_le_bytes(
-            record_header_buf[LEN_SIZE..LEN_SIZE + CRC32C_SIZE]
-                .try_into()
-                .unwrap(),
-        );
-
         let payload_offset = offset + RECORD_HEAD_SIZE as u64;
         if payload_offset + payload_len as u64 > flushed_offset {
             return Err(ReadError::OutOfBounds {
@@ -363,9 +357,22 @@ impl<const H: usize> Reader<H> {
             return Err(ReadError::Crc32cMismatch { offset });
         }
 
-        let payload =
-            self.read_ahead_buf
-                .read(&self.file, payload_offset, payload_len, flushed_offset)?;
+        // Fetch the whole record in one piece and take the checksum from that same piece: when
+        // the payload is not completely buffered the buffer is refilled from the file, and a
+        // header (with its checksum) replaced through another reader in the meantime must not be
+        // paired with the checksum buffered earlier
+        let record = self.read_ahead_buf.read(
+            &self.file,
+            offset,
+            RECORD_HEAD_SIZE + payload_len,
+            flushed_offset,
+        )?;
+        let crc = u32::from_le_bytes(
+            record[LEN_SIZE..LEN_SIZE + CRC32C_SIZE]
+                .try_into()
+                .unwrap(),
+        );
+        let payload = &record[RECORD_HEAD_SIZE..];
 
         let header = &payload[..H];
         let compressed_data = &payload[H..];
